@@ -232,6 +232,13 @@ impl SwiftField for Field61 {
             });
         }
 
+        // 16x is mandatory: at least one character
+        if customer_reference.is_empty() {
+            return Err(ParseError::InvalidFormat {
+                message: "Field 61 customer reference is missing".to_string(),
+            });
+        }
+
         parse_swift_chars(&customer_reference, "Field 61 customer reference")?;
 
         if let Some(ref bank_ref) = bank_reference {
